@@ -1,0 +1,11 @@
+//go:build verif
+
+package bn254
+
+import "math/big"
+
+// VerifDecompose exposes the endomorphism split that G1 scalar multiplication
+// applies to a scalar (lattice.go), for the verification harness.
+func VerifDecompose(k *big.Int) []*big.Int {
+	return curveLattice.decompose(new(big.Int).Set(k))
+}
